@@ -17,9 +17,10 @@ def worker_setup(env):
 
 ID = "C20"
 MODULE = "props.c20"
-THEOREM_MODULES = ["Vinegar.Theorems.C20", "Vinegar.Theorems.C20Lifecycle"]
+THEOREM_MODULES = ["Vinegar.Theorems.C20", "Vinegar.Theorems.C20Lifecycle", "Vinegar.Theorems.C02"]
 THEOREMS = [
     "Vinegar.C20.transfer_closes_resources",
+    "Vinegar.C02.c02Check_runTransfer",
     "Vinegar.C20Lifecycle.concurrent_end_consistent",
     "Vinegar.C20Lifecycle.no_deadlock",
     "Vinegar.C20Lifecycle.start_idem",
@@ -51,7 +52,8 @@ def _extra(v):
     return None
 
 
-_transfer_judge = B.make_judge(required=["c20"], project=T.proj_resources, extra=_extra)
+# "timed out" is one of the endings: that it is reached when the retry budget says so is the C02 checker's verdict
+_transfer_judge = B.make_judge(required=["c20", "c02"], project=T.proj_resources, extra=_extra)
 
 
 def run_impl(case, env):
